@@ -23,7 +23,7 @@
    No proofs here. *)
 From Coq Require Import Bool NArith List Lia Arith.
 Import ListNotations.
-From RsddV Require Import Base.Bdd Model.RobinHood.
+From RsddV Require Import Base.Bdd Model.BddOps Model.RobinHood.
 
 (* BddPtr; [id] = arena index of the node pointed to *)
 Inductive sptr := STrue | SFalse | SReg (id : nat) | SCompl (id : nat).
@@ -124,6 +124,35 @@ Fixpoint unfold_f (fuel : nat) (a : list N) (p : sptr) : option bdd :=
 
 Definition unfold (a : list N) (p : sptr) : option bdd := unfold_f (length a) a p.
 
+(* ---- specification vocabulary (used by the statements of Properties/C02L.v) ---- *)
+
+(* a pointer refers to nothing at or above arena index [i] *)
+Definition child_ok (i : nat) (p : sptr) : Prop :=
+  match p with SReg j | SCompl j => j < i | _ => True end.
+(* a pointer is valid in an arena: a constant, or a pointer (of either polarity) to a node of the
+   arena.  Every arena element was returned by the call that appended it, so the valid pointers are
+   exactly the constants, the pointers returned earlier and their negations. *)
+Definition ptr_valid (a : list N) (p : sptr) : Prop := child_ok (length a) p.
+
+(* the element at index [i] is the encoding of a node whose children are constants or smaller ids,
+   in normal form: the high child is regular and not false *)
+Definition node_ok (i : nat) (e : N) : Prop :=
+  exists v lo hi, e = enc (v, lo, hi) /\ child_ok i lo /\ child_ok i hi /\
+                  s_is_neg hi = false /\ s_is_false hi = false.
+Definition wf_arena (a : list N) : Prop := forall i e, nth_error a i = Some e -> node_ok i e.
+
+(* one request on a store, with arguments valid in that store, that did not hit the u8 overflow *)
+Inductive step (H : N -> N) : table -> table -> Prop :=
+| step_goi t v lo hi p t' :
+    ptr_valid (arena t) lo -> ptr_valid (arena t) hi ->
+    get_or_insert_s H t v lo hi = Ok (p, t') -> step H t t'.
+(* any number of requests *)
+Inductive steps (H : N -> N) : table -> table -> Prop :=
+| steps_refl t : steps H t t
+| steps_snoc t t1 t2 : steps H t t1 -> step H t1 t2 -> steps H t t2.
+(* a store reached from the empty table of [c] slots *)
+Definition reachable (H : N -> N) (c : nat) (t : table) : Prop := steps H (new_table c) t.
+
 (* ---- histories of requests (what the correspondence driver runs) ---- *)
 
 (* an argument of a request: a constant, the k-th earlier result, or its negation *)
@@ -151,6 +180,20 @@ Fixpoint run_s (H : N -> N) (t : table) (pool : list sptr) (rs : list request) :
     | PslOverflow => PslOverflow
     | OutOfFuel => OutOfFuel
     end
+  end.
+
+(* the same history on the tree layer: [mk_node] of Model/BddOps.v on unfoldings *)
+Definition resolve_t (pool : list bdd) (a : arg) : bdd :=
+  match a with
+  | AT => BT
+  | AF => BF
+  | AR k => nth k pool BT
+  | AN k => neg (nth k pool BT)
+  end.
+Fixpoint run_tree (pool : list bdd) (rs : list request) : list bdd :=
+  match rs with
+  | [] => pool
+  | (v, lo, hi) :: r => run_tree (pool ++ [mk_node v (resolve_t pool lo) (resolve_t pool hi)]) r
   end.
 
 (* two hash functions for the correspondence runs (any function does) *)
